@@ -17,7 +17,7 @@ from hutil import attempt
 from props.c01 import FCTOR, FLAVOUR, KCODE, canon_native, expected_shapes
 
 
-def rescale(d):
+def rescale(d, factor=1.0 / 3.0, offset=0.0):
     """give the coordinates more than six significant decimals (x 1/3): every geometry coordinate variable is scaled"""
     ds = d.ds
     if d.family == 'ugrid':
@@ -34,9 +34,9 @@ def rescale(d):
     for n in names:
         a = ds[n]
         if n in ds.coords:
-            out = out.assign_coords({n: (a.dims, a.values / 3.0, a.attrs)})
+            out = out.assign_coords({n: (a.dims, a.values * factor + offset, a.attrs)})
         else:
-            out[n] = (a.dims, a.values / 3.0, a.attrs)
+            out[n] = (a.dims, a.values * factor + offset, a.attrs)
     return out
 
 
@@ -85,6 +85,12 @@ def run(ctx):
                 d = gen.any_dataset(rng, gen.FAMILIES[n % len(gen.FAMILIES)])
             scaled = rng.random() < 0.4
             ds = rescale(d) if scaled else d.ds
+            if n % 5 == 4 and d.family in ('cf1d', 'ugrid'):
+                # a model a few thousandths of a degree across, next to 0E 0N: coordinates between 1e-4 and 1e-3 need up to twenty
+                # decimal places to be written exactly
+                scaled = 'tiny'
+                ds = rescale(d, 1.0 / (3.0 * 2 ** 16), 0.0001)
+                ctx.count('coordinates between 1e-4 and 1e-3')
             # where on the globe the model sits: as generated (around 0E 0N), on a 0..360 longitude axis east of 180E,
             # astride 180E, west of 180W, far south
             where = ['as generated', 'east of 180E', 'astride 180E', 'west of 180W', 'far south', 'as generated'][n % 6]
@@ -135,6 +141,12 @@ def run(ctx):
                                 h.close()
                         if r[0] == 'ok' and not open(base + '.prj').read().strip():
                             r = ('err', 'nothing was written to the opened prj file')
+                    elif fmt == 'shapefile' and n % 3 == 0:
+                        # keyword arguments are handed on to the shapefile writer (documented): a writer told to keep records and
+                        # shapes in step as it goes writes the same file
+                        ctx.count('shapefile:writer options handed on (autoBalance)')
+                        case['writer options'] = {'autoBalance': True}
+                        r = attempt(geometry_ops.write_shapefile, ds, path, autoBalance=True)
                     else:
                         r = attempt(getattr(geometry_ops, f'write_{fmt}'), ds, pathlib.Path(path) if (n + len(fmt)) % 2 else path)
                 if r[0] != 'ok':
